@@ -78,7 +78,9 @@ type Cluster struct {
 	fault   *kernel.Tape
 	scratch string
 
-	claimed     map[string]time.Duration
+	claimed map[string]time.Duration
+
+	adv         *starve // delivery-controlling adversary (C01 "starve" scenario)
 	recoverSeen bool
 	catAt       time.Duration            // last time a catalogue block was proposed
 	hostileAt   time.Duration            // last time a hostile message was sent
@@ -292,6 +294,27 @@ func drawConfig(c *kernel.Ctx, mode Mode) Config {
 			byzPower += p
 			cfg.NByz++
 		}
+		if mode == ModeAgreement && t.Int(5) == 0 {
+			// the scripted delivery adversary: four equal validators, a quiet
+			// network it fully controls, equal timeouts
+			cfg.N, cfg.NByz = 4, 1
+			cfg.Powers = []int64{10, 10, 10, 10}
+			cfg.ByzKinds = []string{"starve"}
+			cfg.DropPct, cfg.DupPct, cfg.MaxDelayMs = 0, 0, 0
+			cfg.Partition, cfg.Crashes, cfg.Skew, cfg.Reorder = false, false, false, false
+			cfg.LongStall = 0
+			cfg.Horizon = 10 * time.Minute
+			if cfg.MaxEvents > 20000 {
+				cfg.MaxEvents = 20000
+			}
+			if cfg.GST > 40*time.Second {
+				cfg.GST = 10 * time.Second
+			}
+			if cfg.Heights < 3 {
+				cfg.Heights = 3
+			}
+			return cfg
+		}
 		kinds := []string{"silent", "equivocate-votes", "equivocate-proposals", "selective", "amnesia-helper"}
 		for k := 0; k < cfg.NByz; k++ {
 			kind := kinds[t.Int(len(kinds))]
@@ -410,6 +433,9 @@ func chanOf(msg cs.ConsensusMessage) byte {
 
 // send gives a message from i to j a fate and schedules its delivery.
 func (cl *Cluster) send(from, to int, msg cs.ConsensusMessage, why string) {
+	if cl.adv != nil && cl.adv.intercept(cl, to, msg) {
+		return
+	}
 	bz := ser.MustEncodeToBytesWithType(msg)
 	cl.sendBytes(from, to, chanOf(msg), bz, why)
 	cl.orc.sent(from, to, msg)
